@@ -1348,6 +1348,11 @@ class WorkflowConductor(object):
             rerunnable_candidates.values(), key=lambda x: (x[1]["id"], x[1]["route"])
         )
 
+        # The request is valid. Reset the workflow status to resuming before the tasks are prepared
+        # so that an error in the preparation (i.e. the retry spec of a task fails to render)
+        # fails the workflow again instead of being overwritten.
+        self.workflow_state.status = statuses.RESUMING
+
         for _, task in sorted_rerunnable_candidates:
             k = constants.TASK_STATE_ROUTE_FORMAT % (task["id"], str(task["route"]))
             reset_items = False if k not in tasks else tasks[k].reset_items
@@ -1367,6 +1372,3 @@ class WorkflowConductor(object):
 
         # Reset the workflow output.
         self.reset_workflow_output()
-
-        # Finally, reset workflow status to resuming if preparation above succeeded.
-        self.workflow_state.status = statuses.RESUMING
